@@ -1,6 +1,8 @@
 import Driver.Proto
 import PqModel.Rle
 import PqModel.RleDecode
+import PqModel.RleBoolBytes
+import PqModel.BitPackedDecode
 
 namespace Driver.Ops.C04Rle
 open Driver PqModel.Rle
@@ -79,10 +81,23 @@ def handle (toks : List String) : Option String :=
     match parseHex? hex with
     | some bs => showBytes (goDecodeBoolean (bytesOf bs))
     | none => "bad-op"
+  -- `rle.godecboolbytes <stale byte> <hex>`: the BYTE-level mirror of DecodeBoolean over a
+  -- destination whose spare capacity is filled with the given byte
+  | ["rle.godecboolbytes", st, hex] => some <|
+    match parseNat? st, parseHex? hex with
+    | some st, some bs =>
+      let bs := bytesOf bs
+      showBytes (goDecodeBooleanBytes (List.replicate (8 * bs.length + 8256) st) bs)
+    | _, _ => "bad-op"
   | ["bitpacked.specdec", w, n, hex] => some <|
     match parseNat? w, parseNat? n, parseHex? hex with
     | some w, some n, some bs => showVals (specDecodeBitPacked w n (bytesOf bs))
     | _, _, _ => "bad-op"
+  -- `bitpacked.godec <w> <hex>`: mirror of bitpacked.decodeLevels (all ceil(8*len/w) values)
+  | ["bitpacked.godec", w, hex] => some <|
+    match parseNat? w, parseHex? hex with
+    | some w, some bs => showVals (.ok (goDecodeBitPacked w (bytesOf bs)))
+    | _, _ => "bad-op"
   | ["bitpacked.enc", w, hex] => some <|
     match parseNat? w, parseHex? hex with
     | some w, some bs => showBytes (.ok (encodeBitPacked w (bytesOf bs)))
